@@ -1,6 +1,7 @@
 package main
 
 import (
+	"encoding/json"
 	"fmt"
 	"go/ast"
 	"go/constant"
@@ -259,7 +260,26 @@ func (c *Ctx) Note(format string, args ...any) {
 // Floor demands at least n obligations (ok or not) under the rule.
 func (c *Ctx) Floor(rule string, n int) { c.floors[rule] = n }
 
+// frozenFloors: per property and rule, the minimum number of instances confirmed on the reference tree
+// (audit/floors.json, generated by tools/genfloors.py from a green run and committed).
+func frozenFloors(prop string) map[string]int {
+	b, err := os.ReadFile(filepath.Join(os.Getenv("VERIF_DIR"), "audit", "floors.json"))
+	if err != nil {
+		return nil
+	}
+	var all map[string]map[string]int
+	if json.Unmarshal(b, &all) != nil {
+		return nil
+	}
+	return all[prop]
+}
+
 func (c *Ctx) checkFloors() {
+	for r, n := range frozenFloors(c.Prop.ID) {
+		if c.floors[r] < n {
+			c.floors[r] = n
+		}
+	}
 	counts := map[string]int{}
 	for _, o := range c.Obls {
 		counts[o.Rule]++
